@@ -225,6 +225,11 @@ def novel_blocks(tier, seed):
     for r, tx in (('R8', 'ENST08'), ('R7', 'ENST0A1'), ('R7', 'ENST0B1')):
         out.append((f'CIRC/{r}/{tx}', circ_cases(r, tx, CFG_NONE), dict(deviations=1)))
     out.append(('CIRC/R8/ENST08/snv', circ_cases('R8', 'ENST08', CFG_NONE, with_snv=True), dict(deviations=2)))
+    # circle without ATG / stop (no T): ORFs exist only through start-gain SNVs and stay open across loops of a length
+    # that is not a multiple of 3 (cross-loop consistency of the ORF's own variant)
+    r11 = [c for c in circ_cases('R11', 'ENST11C', E.Cfg(exception=None, min_length=5), with_snv=True)
+           if len(c.circs[0].frags) == 1 and c.circs[0].frags[0][1] - c.circs[0].frags[0][0] == 100]
+    out.append(('CIRC/R11/exon2/snv', r11, dict(deviations=2, circle_length=100)))
     if not q:
         out.append(('CIRC/R7/ENST0B1/snv', circ_cases('R7', 'ENST0B1', CFG_NONE, with_snv=True), dict(deviations=2)))
     recs = as_records('R8', 'ENST08')
